@@ -63,6 +63,8 @@ def check(run, driver):
     # ---- KDE
     for it in range(150 if thorough else 50):
         N = int(rng.integers(6, 41))
+        if it % 5 == 4:       # larger samples (tree-based density evaluation takes other code paths than on a few dozen points)
+            N = int(rng.integers(80, 600 if thorough else 400))
         dx, dy = int(rng.integers(1, 3)), int(rng.integers(1, 3))
         dz = int(rng.integers(1, 3))
         W = rng.standard_normal((N, dx + dy + dz)) * float(10 ** rng.uniform(-0.5, 0.5))
